@@ -136,7 +136,25 @@ def cfg_adc(tier, seed):
     return out, len(out), True
 
 
+def _int_gain_ok(W):
+    import numpy as _np
+    A = W.lentil.detector.adc
+    img = _np.array([[1.7, 0.4], [2.5, 3.9]])
+    cases = [(2, _np.floor(2 * img)), (_np.int64(3), _np.floor(3 * img)), ([1, 3], _np.floor(img ** 2 + 3 * img)), (_np.array([1, 3]), _np.floor(img ** 2 + 3 * img)),
+             (_np.array([[2, 1], [3, 2]]), _np.floor(_np.array([[2, 1], [3, 2]]) * img)), (_np.array([[[1, 0], [2, 1]], [[3, 2], [0, 4]]]), None)]
+    for g, want in cases:
+        got = _np.asarray(A(img, g), dtype=float)
+        if want is None:
+            gf = _np.asarray(g, dtype=float)
+            want = _np.floor(gf[0] * img ** 2 + gf[1] * img)
+        if got.shape != want.shape or not _np.array_equal(got, want):
+            return False
+    return True
+
+
 def run_adc(W, cfg):
+    if cfg['gain'] == 'scalar' and cfg['dtype'] is None and not cfg['sat']:
+        W.ob_concrete('gains held as integers act on fractional electron counts like the same gains held as floats', lambda: _int_gain_ok(W))
     lt = W.lentil
     shp = tuple(cfg['shape'])
     cells = [(i, j) for i in range(shp[0]) for j in range(shp[1])]
